@@ -270,6 +270,17 @@ def run(prog, tier, res):
         site = "%s" % s
         if s in INSENSITIVE and base_is_chunks(args[0]):
             continue
+        # the only thing that may modify the vector is the sort: any other `&mut` use (dedup, retain, truncate, remove,
+        # drain, reverse, swap, iter_mut ...) drops, duplicates or reorders chunks behind the checks' back
+        a0 = t["args"][0] if t["args"] else None
+        mut_ref = False
+        if a0 is not None and a0.get("k") in ("move", "copy") and not a0["p"]["pr"]:
+            lty = body.locals[a0["p"]["l"]]["ty"]
+            mut_ref = lty.get("k") == "ref" and bool(lty.get("m"))
+        if mut_ref and s not in SORTS and s not in ("DerefMut::deref_mut", "Vec::<T, A>::as_mut_slice") and base_is_chunks(args[0]):
+            res.violate(R1, FN, "mutation:%s" % s, "the chunk vector is modified by `%s`: only the sort by chunk_id may touch it (a chunk dropped or moved here is "
+                        "invisible to the duplicate / missing / end-of-message checks)" % s, body.where(bb))
+            continue
         if s in SORTS or s in CHAIN:
             continue   # adapters are judged at the consumer
         if (s in ("<impl [T]>::last", "<impl [T]>::first", "<impl [T]>::split_last", "<impl [T]>::split_first") and base_is_chunks(args[0])) or \
